@@ -197,7 +197,9 @@ def color_section(tier, seed):
             inst.append(x)
         except Exception:
             pass
-    core_inst = [x for x in inst if type(x).__name__ in ('Color', 'Flag', 'timezone', 'UUID', 'partial', 'date')][:8]
+    core_inst = []
+    for tn in ('Color', 'Flag', 'timezone', 'UUID', 'partial', 'date', 'SimpleNamespace', 'Point'):
+        core_inst += [x for x in inst if type(x).__name__ == tn][:1]          # one of each, whatever else the corpus holds
     vals = vals[:8] + core_inst + vals[8:] + (rng.sample(inst, 25) if tier == 'quick' else inst) + [int, len, [sec_stdlib.a_function]]
     for v in vals:
         for w in ([79, 20] if tier == 'quick' else [79, 40, 20, 8]):
